@@ -425,6 +425,19 @@ pub fn plan(tier: Tier) -> Plan {
         }));
     }
     {
+        let total = if thorough { 420 } else { 84 };
+        for part in 0..16usize {
+            let auts = auts.clone();
+            p.units.push(unit("mixed-mid-size-family-v1-v2-v3-(finite-family)", format!("mixed part {}", part), move |st, rep| {
+                for (i, (_, kvs)) in mixed_family(total).into_iter().enumerate() {
+                    if i % 16 != part || kvs.len() > 450 { continue; }
+                    st.nontrivial += 9;
+                    do_model(&kvs, &auts, false, st, rep);
+                }
+            }));
+        }
+    }
+    {
         p.units.push(unit("version-length-gate-grid", "gate".into(), move |st, rep| {
             match run_gate() {
                 Ok((n, seen)) => {
